@@ -70,9 +70,14 @@ def check(inp):
     prior, data = t01.build(inp)
     joker = TheJoker(prior, rng=np.random.default_rng(inp["seed"]))
     lib = prior.sample(size=5, rng=np.random.default_rng(inp["seed"]), generate_linear=True)
+    lib0 = lib.copy()            # what the caller handed over, kept aside
     with prior.model:
         init = joker.setup_mcmc(data, lib)
-    mp = lib.median_period()
+    mp = lib0.median_period()
+    for nm in lib0.par_names:
+        if not np.array_equal(np.asarray(lib[nm].value), np.asarray(lib0[nm].value)):
+            bad("the-given-samples-are-left-unchanged", column=nm)
+            return fails
     for nm in prior.par_names:
         unit = getattr(prior.pars[nm], xu.UNIT_ATTR_NAME)
         if not np.allclose(np.squeeze(init[nm]), np.squeeze(mp[nm].to_value(unit)), rtol=1e-12):
